@@ -1147,13 +1147,13 @@ func (f *Fault) Decode(d *Decoder) error {
 	}
 
 	// read a byte for bool
-	vote, err := d.buf.ReadByte()
+	vote, err := d.ReadBool()
 	if err != nil {
 		return err
 	}
 	cLog(Yellow, "Vote: %v", vote)
 
-	f.Vote = vote == 1
+	f.Vote = vote
 
 	if err = f.Key.Decode(d); err != nil {
 		return err
@@ -1229,13 +1229,13 @@ func (j *Judgement) Decode(d *Decoder) error {
 	var err error
 
 	// read a byte for bool
-	vote, err := d.buf.ReadByte()
+	vote, err := d.ReadBool()
 	if err != nil {
 		return err
 	}
 	cLog(Yellow, "Vote: %v", vote)
 
-	j.Vote = vote == 1
+	j.Vote = vote
 
 	if err = j.Index.Decode(d); err != nil {
 		return err
@@ -3234,11 +3234,11 @@ func (b *BoundaryNode) Decode(d *Decoder) error {
 			return err
 		}
 	}
-	isLeafByte, err := d.buf.ReadByte()
+	isLeaf, err := d.ReadBool()
 	if err != nil {
 		return err
 	}
-	b.IsLeaf = (isLeafByte != 0)
+	b.IsLeaf = isLeaf
 	return nil
 }
 
